@@ -649,7 +649,7 @@ mod v_socket_dns {
         }};
     }
 
-    // @harness props=C19,C03 cfg=KN tier=q to=900 mem=6 unwind=7 opts=nomem covers=5 funcs=dns::Socket::accepts;dns::Socket::process;dns::Socket::start_query;wire::dns::Packet::parse_name;wire::dns::Question::parse;wire::dns::Record::parse;wire::dns::RecordData::parse;dns::eq_names;dns::copy_name bounds=query_name_<1>x<1>y_with_symbolic_label_bytes,_type_A_or_AAAA,_txid/port/timers_symbolic;_response_=_byte_template_with_symbolic_id/flags/QDCOUNT/ANCOUNT/NSCOUNT/ARCOUNT,_question_<1>x<1>y_with_symbolic_label_bytes_and_TYPE,_concrete_record_layout_per_arm_with_symbolic_TTL/RDATA;_source_any_IPv4_or_2001:db8::x,_ports_any;_one_A_record_owned_by_pointer_0xc00c
+    // @harness props=C19,C03 cfg=KN tier=q to=900 mem=8 unwind=7 opts=nomem covers=5 funcs=dns::Socket::accepts;dns::Socket::process;dns::Socket::start_query;wire::dns::Packet::parse_name;wire::dns::Question::parse;wire::dns::Record::parse;wire::dns::RecordData::parse;dns::eq_names;dns::copy_name bounds=query_name_<1>x<1>y_with_symbolic_label_bytes,_type_A_or_AAAA,_txid/port/timers_symbolic;_response_=_byte_template_with_symbolic_id/flags/QDCOUNT/ANCOUNT/NSCOUNT/ARCOUNT,_question_<1>x<1>y_with_symbolic_label_bytes_and_TYPE,_concrete_record_layout_per_arm_with_symbolic_TTL/RDATA;_source_any_IPv4_or_2001:db8::x,_ports_any;_one_A_record_owned_by_pointer_0xc00c
     #[kani::proof]
     pub(crate) fn dns_process_ptrq_a() {
         let o = process_form(Form { complete: true, ..F_ONE });
@@ -660,7 +660,7 @@ mod v_socket_dns {
         kani::cover!(o.failed && o.rcode == 0 && o.an == 0, "answerless response failed the query");
     }
 
-    // @harness props=C19,C03 cfg=KN tier=q to=900 mem=6 unwind=7 opts=nomem covers=3 funcs=dns::Socket::accepts;dns::Socket::process;dns::Socket::start_query;wire::dns::Packet::parse_name;wire::dns::Question::parse;wire::dns::Record::parse;wire::dns::RecordData::parse;dns::eq_names;dns::copy_name bounds=query_name_<1>x<1>y_with_symbolic_label_bytes,_type_A_or_AAAA,_txid/port/timers_symbolic;_response_=_byte_template_with_symbolic_id/flags/QDCOUNT/ANCOUNT/NSCOUNT/ARCOUNT,_question_<1>x<1>y_with_symbolic_label_bytes_and_TYPE,_concrete_record_layout_per_arm_with_symbolic_TTL/RDATA;_source_any_IPv4_or_2001:db8::x,_ports_any;_arms:_one_AAAA_record_/_one_NS_record_owned_by_pointer_0xc00c
+    // @harness props=C19,C03 cfg=KN tier=q to=900 mem=8 unwind=7 opts=nomem covers=3 funcs=dns::Socket::accepts;dns::Socket::process;dns::Socket::start_query;wire::dns::Packet::parse_name;wire::dns::Question::parse;wire::dns::Record::parse;wire::dns::RecordData::parse;dns::eq_names;dns::copy_name bounds=query_name_<1>x<1>y_with_symbolic_label_bytes,_type_A_or_AAAA,_txid/port/timers_symbolic;_response_=_byte_template_with_symbolic_id/flags/QDCOUNT/ANCOUNT/NSCOUNT/ARCOUNT,_question_<1>x<1>y_with_symbolic_label_bytes_and_TYPE,_concrete_record_layout_per_arm_with_symbolic_TTL/RDATA;_source_any_IPv4_or_2001:db8::x,_ports_any;_arms:_one_AAAA_record_/_one_NS_record_owned_by_pointer_0xc00c
     #[kani::proof]
     pub(crate) fn dns_process_ptrq_aaaa_ns() {
         let (sel, o) = one_of!(Form { rd: [Rd::Aaaa, Rd::A], complete: true, ..F_ONE }, Form { rd: [Rd::Other, Rd::A], ..F_ONE });
@@ -672,7 +672,7 @@ mod v_socket_dns {
         kani::cover!(sel == 1 && o.failed && o.rcode == 0 && o.an == 1, "NS answer failed the query");
     }
 
-    // @harness props=C19,C03 cfg=KN tier=q to=900 mem=6 unwind=7 opts=nomem covers=2 funcs=dns::Socket::accepts;dns::Socket::process;dns::Socket::start_query;wire::dns::Packet::parse_name;wire::dns::Question::parse;wire::dns::Record::parse;wire::dns::RecordData::parse;dns::eq_names;dns::copy_name bounds=query_name_<1>x<1>y_with_symbolic_label_bytes,_type_A_or_AAAA,_txid/port/timers_symbolic;_response_=_byte_template_with_symbolic_id/flags/QDCOUNT/ANCOUNT/NSCOUNT/ARCOUNT,_question_<1>x<1>y_with_symbolic_label_bytes_and_TYPE,_concrete_record_layout_per_arm_with_symbolic_TTL/RDATA;_source_any_IPv4_or_2001:db8::x,_ports_any;_arms:_the_single_answer_record_(owner_0xc00c)_is_a_CNAME_with_RDATA_<1>x+pointer_to_the_question's_last_label_/_with_RDATA_<2>xx<0>
+    // @harness props=C19,C03 cfg=KN tier=q to=900 mem=8 unwind=7 opts=nomem covers=2 funcs=dns::Socket::accepts;dns::Socket::process;dns::Socket::start_query;wire::dns::Packet::parse_name;wire::dns::Question::parse;wire::dns::Record::parse;wire::dns::RecordData::parse;dns::eq_names;dns::copy_name bounds=query_name_<1>x<1>y_with_symbolic_label_bytes,_type_A_or_AAAA,_txid/port/timers_symbolic;_response_=_byte_template_with_symbolic_id/flags/QDCOUNT/ANCOUNT/NSCOUNT/ARCOUNT,_question_<1>x<1>y_with_symbolic_label_bytes_and_TYPE,_concrete_record_layout_per_arm_with_symbolic_TTL/RDATA;_source_any_IPv4_or_2001:db8::x,_ports_any;_arms:_the_single_answer_record_(owner_0xc00c)_is_a_CNAME_with_RDATA_<1>x+pointer_to_the_question's_last_label_/_with_RDATA_<2>xx<0>
     #[kani::proof]
     pub(crate) fn dns_process_cname_only() {
         let (sel, o) = one_of!(Form { rd: [Rd::CnameLabelPtr(QSUF_OFF), Rd::A], ..F_ONE }, Form { rd: [Rd::CnameInline, Rd::A], ..F_ONE });
@@ -681,7 +681,7 @@ mod v_socket_dns {
         kani::cover!(o.acc && o.id_ok && o.port_ok && o.question_ok && o.qr && o.an == 2 && !o.failed, "ANCOUNT beyond the message: response dropped");
     }
 
-    // @harness props=C19,C03 cfg=KN tier=q to=900 mem=6 unwind=7 opts=nomem covers=2 funcs=dns::Socket::accepts;dns::Socket::process;dns::Socket::start_query;wire::dns::Packet::parse_name;wire::dns::Question::parse;wire::dns::Record::parse;wire::dns::RecordData::parse;dns::eq_names;dns::copy_name bounds=query_name_<1>x<1>y_with_symbolic_label_bytes,_type_A_or_AAAA,_txid/port/timers_symbolic;_response_=_byte_template_with_symbolic_id/flags/QDCOUNT/ANCOUNT/NSCOUNT/ARCOUNT,_question_<1>x<1>y_with_symbolic_label_bytes_and_TYPE,_concrete_record_layout_per_arm_with_symbolic_TTL/RDATA;_source_any_IPv4_or_2001:db8::x,_ports_any;_one_A_record_whose_owner_is_written_inline_<1>x<1>y<0>_with_symbolic_label_bytes
+    // @harness props=C19,C03 cfg=KN tier=q to=900 mem=8 unwind=7 opts=nomem covers=2 funcs=dns::Socket::accepts;dns::Socket::process;dns::Socket::start_query;wire::dns::Packet::parse_name;wire::dns::Question::parse;wire::dns::Record::parse;wire::dns::RecordData::parse;dns::eq_names;dns::copy_name bounds=query_name_<1>x<1>y_with_symbolic_label_bytes,_type_A_or_AAAA,_txid/port/timers_symbolic;_response_=_byte_template_with_symbolic_id/flags/QDCOUNT/ANCOUNT/NSCOUNT/ARCOUNT,_question_<1>x<1>y_with_symbolic_label_bytes_and_TYPE,_concrete_record_layout_per_arm_with_symbolic_TTL/RDATA;_source_any_IPv4_or_2001:db8::x,_ports_any;_one_A_record_whose_owner_is_written_inline_<1>x<1>y<0>_with_symbolic_label_bytes
     #[kani::proof]
     pub(crate) fn dns_process_inline() {
         let o = process_form(Form { o: [Owner::Inline, Owner::Inline], complete: true, ..F_ONE });
@@ -689,7 +689,7 @@ mod v_socket_dns {
         kani::cover!(o.failed && o.other_name && o.rcode == 0, "record for another name ignored");
     }
 
-    // @harness props=C19,C03,C07 cfg=KN tier=q to=900 mem=6 unwind=7 opts=nomem covers=3 funcs=dns::Socket::accepts;dns::Socket::process;dns::Socket::start_query;wire::dns::Packet::parse_name;wire::dns::Question::parse;wire::dns::Record::parse;wire::dns::RecordData::parse;dns::eq_names;dns::copy_name bounds=query_name_<1>x<1>y_with_symbolic_label_bytes,_type_A_or_AAAA,_txid/port/timers_symbolic;_response_=_byte_template_with_symbolic_id/flags/QDCOUNT/ANCOUNT/NSCOUNT/ARCOUNT,_question_<1>x<1>y_with_symbolic_label_bytes_and_TYPE,_concrete_record_layout_per_arm_with_symbolic_TTL/RDATA;_source_any_IPv4_or_2001:db8::x,_ports_any;_arms:_one_A_record_whose_owner_is_<1>x+pointer_to_the_question's_last_label_/_<1>x+pointer_to_itself
+    // @harness props=C19,C03,C07 cfg=KN tier=q to=900 mem=8 unwind=7 opts=nomem covers=3 funcs=dns::Socket::accepts;dns::Socket::process;dns::Socket::start_query;wire::dns::Packet::parse_name;wire::dns::Question::parse;wire::dns::Record::parse;wire::dns::RecordData::parse;dns::eq_names;dns::copy_name bounds=query_name_<1>x<1>y_with_symbolic_label_bytes,_type_A_or_AAAA,_txid/port/timers_symbolic;_response_=_byte_template_with_symbolic_id/flags/QDCOUNT/ANCOUNT/NSCOUNT/ARCOUNT,_question_<1>x<1>y_with_symbolic_label_bytes_and_TYPE,_concrete_record_layout_per_arm_with_symbolic_TTL/RDATA;_source_any_IPv4_or_2001:db8::x,_ports_any;_arms:_one_A_record_whose_owner_is_<1>x+pointer_to_the_question's_last_label_/_<1>x+pointer_to_itself
     #[kani::proof]
     pub(crate) fn dns_process_labelptr() {
         let (sel, o) = one_of!(Form { o: [Owner::LabelPtr(QSUF_OFF), Owner::Inline], complete: true, ..F_ONE }, Form { o: [Owner::LabelPtr(SELF), Owner::Inline], ..F_ONE });
@@ -701,7 +701,7 @@ mod v_socket_dns {
         kani::cover!(sel == 1 && o.acc && o.id_ok && o.port_ok && o.question_ok && o.qr && o.an == 1 && !o.failed, "label + pointer loop: response dropped");
     }
 
-    // @harness props=C19,C03,C07 cfg=KN tier=q to=900 mem=6 unwind=7 opts=nomem covers=2 funcs=dns::Socket::accepts;dns::Socket::process;dns::Socket::start_query;wire::dns::Packet::parse_name;wire::dns::Question::parse;wire::dns::Record::parse;wire::dns::RecordData::parse;dns::eq_names;dns::copy_name bounds=query_name_<1>x<1>y_with_symbolic_label_bytes,_type_A_or_AAAA,_txid/port/timers_symbolic;_response_=_byte_template_with_symbolic_id/flags/QDCOUNT/ANCOUNT/NSCOUNT/ARCOUNT,_question_<1>x<1>y_with_symbolic_label_bytes_and_TYPE,_concrete_record_layout_per_arm_with_symbolic_TTL/RDATA;_source_any_IPv4_or_2001:db8::x,_ports_any;_arms:_one_A_record_whose_owner_is_a_compression_pointer_to_itself_/_to_the_question's_last_label
+    // @harness props=C19,C03,C07 cfg=KN tier=q to=900 mem=8 unwind=7 opts=nomem covers=2 funcs=dns::Socket::accepts;dns::Socket::process;dns::Socket::start_query;wire::dns::Packet::parse_name;wire::dns::Question::parse;wire::dns::Record::parse;wire::dns::RecordData::parse;dns::eq_names;dns::copy_name bounds=query_name_<1>x<1>y_with_symbolic_label_bytes,_type_A_or_AAAA,_txid/port/timers_symbolic;_response_=_byte_template_with_symbolic_id/flags/QDCOUNT/ANCOUNT/NSCOUNT/ARCOUNT,_question_<1>x<1>y_with_symbolic_label_bytes_and_TYPE,_concrete_record_layout_per_arm_with_symbolic_TTL/RDATA;_source_any_IPv4_or_2001:db8::x,_ports_any;_arms:_one_A_record_whose_owner_is_a_compression_pointer_to_itself_/_to_the_question's_last_label
     #[kani::proof]
     pub(crate) fn dns_process_ptr_self_suffix() {
         let (sel, o) = one_of!(Form { o: [Owner::Ptr(SELF), Owner::Inline], ..F_ONE }, Form { o: [Owner::Ptr(QSUF_OFF), Owner::Inline], ..F_ONE });
@@ -712,58 +712,69 @@ mod v_socket_dns {
         kani::cover!(sel == 1 && o.failed && o.rcode == 0 && o.other_name, "pointer to a suffix of the question name ignored");
     }
 
-    // @harness props=C19,C03,C07 cfg=KN tier=q to=900 mem=6 unwind=7 opts=nomem covers=2 funcs=dns::Socket::accepts;dns::Socket::process;dns::Socket::start_query;wire::dns::Packet::parse_name;wire::dns::Question::parse;wire::dns::Record::parse;wire::dns::RecordData::parse;dns::eq_names;dns::copy_name bounds=query_name_<1>x<1>y_with_symbolic_label_bytes,_type_A_or_AAAA,_txid/port/timers_symbolic;_response_=_byte_template_with_symbolic_id/flags/QDCOUNT/ANCOUNT/NSCOUNT/ARCOUNT,_question_<1>x<1>y_with_symbolic_label_bytes_and_TYPE,_concrete_record_layout_per_arm_with_symbolic_TTL/RDATA;_source_any_IPv4_or_2001:db8::x,_ports_any;_arms:_one_A_record_whose_owner_is_a_compression_pointer_to_the_question's_root_octet_/_forward_into_its_own_RDATA_(symbolic_bytes)
+    // @harness props=C19,C03,C07 cfg=KN tier=q to=900 mem=8 unwind=7 opts=nomem covers=2 funcs=dns::Socket::accepts;dns::Socket::process;dns::Socket::start_query;wire::dns::Packet::parse_name;wire::dns::Question::parse;wire::dns::Record::parse;wire::dns::RecordData::parse;dns::eq_names;dns::copy_name bounds=query_name_<1>x<1>y_with_symbolic_label_bytes,_type_A_or_AAAA,_txid/port/timers_symbolic;_response_=_byte_template_with_symbolic_id/flags/QDCOUNT/ANCOUNT/NSCOUNT/ARCOUNT,_question_<1>x<1>y_with_symbolic_label_bytes_and_TYPE,_concrete_record_layout_per_arm_with_symbolic_TTL/RDATA;_source_any_IPv4_or_2001:db8::x,_ports_any;_one_A_record_whose_owner_is_a_compression_pointer_to_the_question's_root_octet
     #[kani::proof]
-    pub(crate) fn dns_process_ptr_root_forward() {
-        let (sel, o) = one_of!(Form { o: [Owner::Ptr(QROOT_OFF), Owner::Inline], ..F_ONE }, Form { o: [Owner::Ptr(ANS_OFF + 12), Owner::Inline], ..F_ONE });
-        kani::cover!(sel == 0 && o.failed && o.rcode == 0 && o.other_name, "pointer to the root name ignored");
-        kani::cover!(sel == 1 && o.failed && o.rcode == 0, "forward pointer into RDATA: other name ignored");
+    pub(crate) fn dns_process_ptr_root() {
+        let o = process_form(Form { o: [Owner::Ptr(QROOT_OFF), Owner::Inline], ..F_ONE });
+        assert!(!o.completed, "prop:c19_record_of_root_name_never_completes_query");
+        kani::cover!(o.failed && o.rcode == 0 && o.other_name, "pointer to the root name ignored");
+        kani::cover!(o.failed && o.rcode == 3, "NXDomain failed the query");
     }
 
-    // @harness props=C19,C03,C07 cfg=KN tier=q to=900 mem=8 unwind=7 opts=nomem covers=2 funcs=dns::Socket::accepts;dns::Socket::process;dns::Socket::start_query;wire::dns::Packet::parse_name;wire::dns::Question::parse;wire::dns::Record::parse;wire::dns::RecordData::parse;dns::eq_names;dns::copy_name bounds=query_name_<1>x<1>y_with_symbolic_label_bytes,_type_A_or_AAAA,_txid/port/timers_symbolic;_response_=_byte_template_with_symbolic_id/flags/QDCOUNT/ANCOUNT/NSCOUNT/ARCOUNT,_question_<1>x<1>y_with_symbolic_label_bytes_and_TYPE,_concrete_record_layout_per_arm_with_symbolic_TTL/RDATA;_source_any_IPv4_or_2001:db8::x,_ports_any;_arms:_one_A_record_whose_owner_is_a_compression_pointer_to_the_message_id_(symbolic_bytes)_/_to_the_first_offset_beyond_the_message_/_to_0x3fff
+    // @harness props=C19,C03,C07 cfg=KN tier=q to=900 mem=10 unwind=7 opts=nomem covers=2 funcs=dns::Socket::accepts;dns::Socket::process;dns::Socket::start_query;wire::dns::Packet::parse_name;wire::dns::Question::parse;wire::dns::Record::parse;wire::dns::RecordData::parse;dns::eq_names;dns::copy_name bounds=query_name_<1>x<1>y_with_symbolic_label_bytes,_type_A_or_AAAA,_txid/port/timers_symbolic;_response_=_byte_template_with_symbolic_id/flags/QDCOUNT/ANCOUNT/NSCOUNT/ARCOUNT,_question_<1>x<1>y_with_symbolic_label_bytes_and_TYPE,_concrete_record_layout_per_arm_with_symbolic_TTL/RDATA;_source_any_IPv4_or_2001:db8::x,_ports_any;_one_A_record_whose_owner_is_a_compression_pointer_forward_into_its_own_RDATA_(4_symbolic_bytes_read_as_a_name)
     #[kani::proof]
-    pub(crate) fn dns_process_ptr_header_range() {
-        let (sel, o) = one_of!(
-            Form { o: [Owner::Ptr(0), Owner::Inline], ..F_ONE },
-            Form { o: [Owner::Ptr(ANS_OFF + 16), Owner::Inline], ..F_ONE },
-            Form { o: [Owner::Ptr(0x3fff), Owner::Inline], ..F_ONE },
-        );
-        if sel >= 1 {
-            assert!(!o.completed, "prop:c19_out_of_range_pointer_never_completes_query");
-        }
-        kani::cover!(sel == 0 && o.failed && o.rcode == 0, "pointer to the header: other name ignored");
-        kani::cover!(sel == 1 && o.acc && o.id_ok && o.port_ok && o.question_ok && o.qr && o.an == 1 && !o.failed, "pointer beyond the message: response dropped");
+    pub(crate) fn dns_process_ptr_forward() {
+        let o = process_form(Form { o: [Owner::Ptr(ANS_OFF + 12), Owner::Inline], ..F_ONE });
+        kani::cover!(o.failed && o.rcode == 0, "forward pointer into RDATA: other name ignored");
+        kani::cover!(o.acc && o.id_ok && o.port_ok && o.question_ok && o.qr && o.an == 1 && !o.failed && !o.completed, "forward pointer into malformed RDATA: response dropped");
     }
 
-    // @harness props=C19,C03 cfg=KN tier=q to=900 mem=6 unwind=7 opts=nomem covers=1 funcs=dns::Socket::accepts;dns::Socket::process;dns::Socket::start_query;wire::dns::Packet::parse_name;wire::dns::Question::parse;wire::dns::Record::parse;wire::dns::RecordData::parse;dns::eq_names;dns::copy_name bounds=query_name_<1>x<1>y_with_symbolic_label_bytes,_type_A_or_AAAA,_txid/port/timers_symbolic;_response_=_byte_template_with_symbolic_id/flags/QDCOUNT/ANCOUNT/NSCOUNT/ARCOUNT,_question_<1>x<1>y_with_symbolic_label_bytes_and_TYPE,_concrete_record_layout_per_arm_with_symbolic_TTL/RDATA;_source_any_IPv4_or_2001:db8::x,_ports_any;_CNAME_owned_by_0xc00c_(RDATA_<1>x+pointer_to_the_question's_last_label)_then_an_A_record_owned_by_a_pointer_to_that_RDATA
+    // @harness props=C19,C03,C07 cfg=KN tier=q to=900 mem=10 unwind=7 opts=nomem covers=2 funcs=dns::Socket::accepts;dns::Socket::process;dns::Socket::start_query;wire::dns::Packet::parse_name;wire::dns::Question::parse;wire::dns::Record::parse;wire::dns::RecordData::parse;dns::eq_names;dns::copy_name bounds=query_name_<1>x<1>y_with_symbolic_label_bytes,_type_A_or_AAAA,_txid/port/timers_symbolic;_response_=_byte_template_with_symbolic_id/flags/QDCOUNT/ANCOUNT/NSCOUNT/ARCOUNT,_question_<1>x<1>y_with_symbolic_label_bytes_and_TYPE,_concrete_record_layout_per_arm_with_symbolic_TTL/RDATA;_source_any_IPv4_or_2001:db8::x,_ports_any;_one_A_record_whose_owner_is_a_compression_pointer_to_offset_0_(the_symbolic_message_id_read_as_a_name)
+    #[kani::proof]
+    pub(crate) fn dns_process_ptr_header() {
+        let o = process_form(Form { o: [Owner::Ptr(0), Owner::Inline], ..F_ONE });
+        kani::cover!(o.failed && o.rcode == 0, "pointer to the header: other name ignored");
+        kani::cover!(o.acc && o.id_ok && o.port_ok && o.question_ok && o.qr && o.an == 1 && !o.failed && !o.completed, "pointer to a malformed name in the header: response dropped");
+    }
+
+    // @harness props=C19,C03,C07 cfg=KN tier=q to=900 mem=8 unwind=7 opts=nomem covers=2 funcs=dns::Socket::accepts;dns::Socket::process;dns::Socket::start_query;wire::dns::Packet::parse_name;wire::dns::Question::parse;wire::dns::Record::parse;wire::dns::RecordData::parse;dns::eq_names;dns::copy_name bounds=query_name_<1>x<1>y_with_symbolic_label_bytes,_type_A_or_AAAA,_txid/port/timers_symbolic;_response_=_byte_template_with_symbolic_id/flags/QDCOUNT/ANCOUNT/NSCOUNT/ARCOUNT,_question_<1>x<1>y_with_symbolic_label_bytes_and_TYPE,_concrete_record_layout_per_arm_with_symbolic_TTL/RDATA;_source_any_IPv4_or_2001:db8::x,_ports_any;_arms:_one_A_record_whose_owner_is_a_compression_pointer_to_the_first_offset_beyond_the_message_/_to_0x3fff
+    #[kani::proof]
+    pub(crate) fn dns_process_ptr_out_of_range() {
+        let (sel, o) = one_of!(Form { o: [Owner::Ptr(ANS_OFF + 16), Owner::Inline], ..F_ONE }, Form { o: [Owner::Ptr(0x3fff), Owner::Inline], ..F_ONE });
+        assert!(!o.completed, "prop:c19_out_of_range_pointer_never_completes_query");
+        kani::cover!(sel == 0 && o.acc && o.id_ok && o.port_ok && o.question_ok && o.qr && o.an == 1 && !o.failed, "pointer beyond the message: response dropped");
+        kani::cover!(sel == 1 && o.acc && o.id_ok && o.port_ok && o.question_ok && o.qr && o.an == 1 && !o.failed, "pointer to 0x3fff: response dropped");
+    }
+
+    // @harness props=C19,C03 cfg=KN tier=q to=900 mem=8 unwind=7 opts=nomem covers=1 funcs=dns::Socket::accepts;dns::Socket::process;dns::Socket::start_query;wire::dns::Packet::parse_name;wire::dns::Question::parse;wire::dns::Record::parse;wire::dns::RecordData::parse;dns::eq_names;dns::copy_name bounds=query_name_<1>x<1>y_with_symbolic_label_bytes,_type_A_or_AAAA,_txid/port/timers_symbolic;_response_=_byte_template_with_symbolic_id/flags/QDCOUNT/ANCOUNT/NSCOUNT/ARCOUNT,_question_<1>x<1>y_with_symbolic_label_bytes_and_TYPE,_concrete_record_layout_per_arm_with_symbolic_TTL/RDATA;_source_any_IPv4_or_2001:db8::x,_ports_any;_CNAME_owned_by_0xc00c_(RDATA_<1>x+pointer_to_the_question's_last_label)_then_an_A_record_owned_by_a_pointer_to_that_RDATA
     #[kani::proof]
     pub(crate) fn dns_process_cname_then() {
         let o = process_form(Form { o: [Owner::Ptr(QN_OFF), Owner::Ptr(RD1)], rd: [Rd::CnameLabelPtr(QSUF_OFF), Rd::A], ..F_TWO });
         kani::cover!(o.completed && o.cname_followed && o.naddr == 1, "CNAME followed");
     }
 
-    // @harness props=C19,C03 cfg=KN tier=q to=900 mem=6 unwind=7 opts=nomem covers=1 funcs=dns::Socket::accepts;dns::Socket::process;dns::Socket::start_query;wire::dns::Packet::parse_name;wire::dns::Question::parse;wire::dns::Record::parse;wire::dns::RecordData::parse;dns::eq_names;dns::copy_name bounds=query_name_<1>x<1>y_with_symbolic_label_bytes,_type_A_or_AAAA,_txid/port/timers_symbolic;_response_=_byte_template_with_symbolic_id/flags/QDCOUNT/ANCOUNT/NSCOUNT/ARCOUNT,_question_<1>x<1>y_with_symbolic_label_bytes_and_TYPE,_concrete_record_layout_per_arm_with_symbolic_TTL/RDATA;_source_any_IPv4_or_2001:db8::x,_ports_any;_CNAME_owned_by_0xc00c_then_an_A_record_owned_by_0xc00c_(the_original_name)
+    // @harness props=C19,C03 cfg=KN tier=q to=900 mem=8 unwind=7 opts=nomem covers=1 funcs=dns::Socket::accepts;dns::Socket::process;dns::Socket::start_query;wire::dns::Packet::parse_name;wire::dns::Question::parse;wire::dns::Record::parse;wire::dns::RecordData::parse;dns::eq_names;dns::copy_name bounds=query_name_<1>x<1>y_with_symbolic_label_bytes,_type_A_or_AAAA,_txid/port/timers_symbolic;_response_=_byte_template_with_symbolic_id/flags/QDCOUNT/ANCOUNT/NSCOUNT/ARCOUNT,_question_<1>x<1>y_with_symbolic_label_bytes_and_TYPE,_concrete_record_layout_per_arm_with_symbolic_TTL/RDATA;_source_any_IPv4_or_2001:db8::x,_ports_any;_CNAME_owned_by_0xc00c_then_an_A_record_owned_by_0xc00c_(the_original_name)
     #[kani::proof]
     pub(crate) fn dns_process_cname_then_original() {
         let o = process_form(Form { o: [Owner::Ptr(QN_OFF), Owner::Ptr(QN_OFF)], rd: [Rd::CnameLabelPtr(QSUF_OFF), Rd::A], ..F_TWO });
         kani::cover!(o.failed && o.cname_followed && o.other_name && o.rcode == 0, "record for the original name after a CNAME ignored");
     }
 
-    // @harness props=C19,C03 cfg=KN tier=q to=900 mem=6 unwind=7 opts=nomem covers=1 funcs=dns::Socket::accepts;dns::Socket::process;dns::Socket::start_query;wire::dns::Packet::parse_name;wire::dns::Question::parse;wire::dns::Record::parse;wire::dns::RecordData::parse;dns::eq_names;dns::copy_name bounds=query_name_<1>x<1>y_with_symbolic_label_bytes,_type_A_or_AAAA,_txid/port/timers_symbolic;_response_=_byte_template_with_symbolic_id/flags/QDCOUNT/ANCOUNT/NSCOUNT/ARCOUNT,_question_<1>x<1>y_with_symbolic_label_bytes_and_TYPE,_concrete_record_layout_per_arm_with_symbolic_TTL/RDATA;_source_any_IPv4_or_2001:db8::x,_ports_any;_CNAME_owned_by_0xc00c_with_RDATA_<2>xx<0>_then_an_A_record_with_inline_owner_<1>x<1>y<0>
+    // @harness props=C19,C03 cfg=KN tier=q to=900 mem=8 unwind=7 opts=nomem covers=1 funcs=dns::Socket::accepts;dns::Socket::process;dns::Socket::start_query;wire::dns::Packet::parse_name;wire::dns::Question::parse;wire::dns::Record::parse;wire::dns::RecordData::parse;dns::eq_names;dns::copy_name bounds=query_name_<1>x<1>y_with_symbolic_label_bytes,_type_A_or_AAAA,_txid/port/timers_symbolic;_response_=_byte_template_with_symbolic_id/flags/QDCOUNT/ANCOUNT/NSCOUNT/ARCOUNT,_question_<1>x<1>y_with_symbolic_label_bytes_and_TYPE,_concrete_record_layout_per_arm_with_symbolic_TTL/RDATA;_source_any_IPv4_or_2001:db8::x,_ports_any;_CNAME_owned_by_0xc00c_with_RDATA_<2>xx<0>_then_an_A_record_with_inline_owner_<1>x<1>y<0>
     #[kani::proof]
     pub(crate) fn dns_process_cname_inline() {
         let o = process_form(Form { o: [Owner::Ptr(QN_OFF), Owner::Inline], rd: [Rd::CnameInline, Rd::A], ..F_TWO });
         kani::cover!(o.failed && o.cname_followed && o.rcode == 0, "address for a name other than the CNAME target ignored");
     }
 
-    // @harness props=C19,C03,C07 cfg=KN tier=q to=900 mem=6 unwind=7 opts=nomem covers=1 funcs=dns::Socket::accepts;dns::Socket::process;dns::Socket::start_query;wire::dns::Packet::parse_name;wire::dns::Question::parse;wire::dns::Record::parse;wire::dns::RecordData::parse;dns::eq_names;dns::copy_name bounds=query_name_<1>x<1>y_with_symbolic_label_bytes,_type_A_or_AAAA,_txid/port/timers_symbolic;_response_=_byte_template_with_symbolic_id/flags/QDCOUNT/ANCOUNT/NSCOUNT/ARCOUNT,_question_<1>x<1>y_with_symbolic_label_bytes_and_TYPE,_concrete_record_layout_per_arm_with_symbolic_TTL/RDATA;_source_any_IPv4_or_2001:db8::x,_ports_any;_CNAME_owned_by_0xc00c_with_RDATA_<1>x+pointer_to_the_question_name_(three_labels)_then_an_A_record_owned_by_a_pointer_to_that_RDATA
+    // @harness props=C19,C03,C07 cfg=KN tier=q to=900 mem=8 unwind=7 opts=nomem covers=1 funcs=dns::Socket::accepts;dns::Socket::process;dns::Socket::start_query;wire::dns::Packet::parse_name;wire::dns::Question::parse;wire::dns::Record::parse;wire::dns::RecordData::parse;dns::eq_names;dns::copy_name bounds=query_name_<1>x<1>y_with_symbolic_label_bytes,_type_A_or_AAAA,_txid/port/timers_symbolic;_response_=_byte_template_with_symbolic_id/flags/QDCOUNT/ANCOUNT/NSCOUNT/ARCOUNT,_question_<1>x<1>y_with_symbolic_label_bytes_and_TYPE,_concrete_record_layout_per_arm_with_symbolic_TTL/RDATA;_source_any_IPv4_or_2001:db8::x,_ports_any;_CNAME_owned_by_0xc00c_with_RDATA_<1>x+pointer_to_the_question_name_(three_labels)_then_an_A_record_owned_by_a_pointer_to_that_RDATA
     #[kani::proof]
     pub(crate) fn dns_process_cname_long() {
         let o = process_form(Form { o: [Owner::Ptr(QN_OFF), Owner::Ptr(RD1)], rd: [Rd::CnameLabelPtr(QN_OFF), Rd::A], ..F_TWO });
         kani::cover!(o.completed && o.cname_followed, "CNAME to a three-label name followed");
     }
 
-    // @harness props=C19,C03,C07 cfg=KN tier=q to=900 mem=6 unwind=7 opts=nomem covers=1 funcs=dns::Socket::accepts;dns::Socket::process;dns::Socket::start_query;wire::dns::Packet::parse_name;wire::dns::Question::parse;wire::dns::Record::parse;wire::dns::RecordData::parse;dns::eq_names;dns::copy_name bounds=query_name_<1>x<1>y_with_symbolic_label_bytes,_type_A_or_AAAA,_txid/port/timers_symbolic;_response_=_byte_template_with_symbolic_id/flags/QDCOUNT/ANCOUNT/NSCOUNT/ARCOUNT,_question_<1>x<1>y_with_symbolic_label_bytes_and_TYPE,_concrete_record_layout_per_arm_with_symbolic_TTL/RDATA;_source_any_IPv4_or_2001:db8::x,_ports_any;_CNAME_owned_by_0xc00c_with_RDATA_<1>x+pointer_to_itself_then_an_A_record_owned_by_a_pointer_to_that_RDATA
+    // @harness props=C19,C03,C07 cfg=KN tier=q to=900 mem=8 unwind=7 opts=nomem covers=1 funcs=dns::Socket::accepts;dns::Socket::process;dns::Socket::start_query;wire::dns::Packet::parse_name;wire::dns::Question::parse;wire::dns::Record::parse;wire::dns::RecordData::parse;dns::eq_names;dns::copy_name bounds=query_name_<1>x<1>y_with_symbolic_label_bytes,_type_A_or_AAAA,_txid/port/timers_symbolic;_response_=_byte_template_with_symbolic_id/flags/QDCOUNT/ANCOUNT/NSCOUNT/ARCOUNT,_question_<1>x<1>y_with_symbolic_label_bytes_and_TYPE,_concrete_record_layout_per_arm_with_symbolic_TTL/RDATA;_source_any_IPv4_or_2001:db8::x,_ports_any;_CNAME_owned_by_0xc00c_with_RDATA_<1>x+pointer_to_itself_then_an_A_record_owned_by_a_pointer_to_that_RDATA
     #[kani::proof]
     pub(crate) fn dns_process_cname_loop() {
         let o = process_form(Form { o: [Owner::Ptr(QN_OFF), Owner::Ptr(RD1)], rd: [Rd::CnameLabelPtr(SELF), Rd::A], ..F_TWO });
@@ -771,7 +782,7 @@ mod v_socket_dns {
         kani::cover!(o.acc && o.id_ok && o.port_ok && o.question_ok && o.qr && o.an == 2 && !o.completed && !o.failed, "CNAME pointing at itself: response dropped");
     }
 
-    // @harness props=C19,C03 cfg=KN tier=q to=900 mem=6 unwind=7 opts=nomem covers=2 funcs=dns::Socket::accepts;dns::Socket::process;dns::Socket::start_query;wire::dns::Packet::parse_name;wire::dns::Question::parse;wire::dns::Record::parse;wire::dns::RecordData::parse;dns::eq_names;dns::copy_name bounds=query_name_<1>x<1>y_with_symbolic_label_bytes,_type_A_or_AAAA,_txid/port/timers_symbolic;_response_=_byte_template_with_symbolic_id/flags/QDCOUNT/ANCOUNT/NSCOUNT/ARCOUNT,_question_<1>x<1>y_with_symbolic_label_bytes_and_TYPE,_concrete_record_layout_per_arm_with_symbolic_TTL/RDATA;_source_any_IPv4_or_2001:db8::x,_ports_any;_two_A_records_owned_by_0xc00c
+    // @harness props=C19,C03 cfg=KN tier=q to=900 mem=8 unwind=7 opts=nomem covers=2 funcs=dns::Socket::accepts;dns::Socket::process;dns::Socket::start_query;wire::dns::Packet::parse_name;wire::dns::Question::parse;wire::dns::Record::parse;wire::dns::RecordData::parse;dns::eq_names;dns::copy_name bounds=query_name_<1>x<1>y_with_symbolic_label_bytes,_type_A_or_AAAA,_txid/port/timers_symbolic;_response_=_byte_template_with_symbolic_id/flags/QDCOUNT/ANCOUNT/NSCOUNT/ARCOUNT,_question_<1>x<1>y_with_symbolic_label_bytes_and_TYPE,_concrete_record_layout_per_arm_with_symbolic_TTL/RDATA;_source_any_IPv4_or_2001:db8::x,_ports_any;_two_A_records_owned_by_0xc00c
     #[kani::proof]
     pub(crate) fn dns_process_two_a() {
         let o = process_form(F_TWO);
@@ -779,14 +790,14 @@ mod v_socket_dns {
         kani::cover!(o.completed && o.an == 1, "record beyond ANCOUNT not used");
     }
 
-    // @harness props=C19,C03 cfg=KN tier=q to=900 mem=6 unwind=7 opts=nomem covers=1 funcs=dns::Socket::accepts;dns::Socket::process;dns::Socket::start_query;wire::dns::Packet::parse_name;wire::dns::Question::parse;wire::dns::Record::parse;wire::dns::RecordData::parse;dns::eq_names;dns::copy_name bounds=query_name_<1>x<1>y_with_symbolic_label_bytes,_type_A_or_AAAA,_txid/port/timers_symbolic;_response_=_byte_template_with_symbolic_id/flags/QDCOUNT/ANCOUNT/NSCOUNT/ARCOUNT,_question_<1>x<1>y_with_symbolic_label_bytes_and_TYPE,_concrete_record_layout_per_arm_with_symbolic_TTL/RDATA;_source_any_IPv4_or_2001:db8::x,_ports_any;_A_record_owned_by_0xc00c_then_A_record_with_inline_owner_<1>x<1>y<0>
+    // @harness props=C19,C03 cfg=KN tier=q to=900 mem=8 unwind=7 opts=nomem covers=1 funcs=dns::Socket::accepts;dns::Socket::process;dns::Socket::start_query;wire::dns::Packet::parse_name;wire::dns::Question::parse;wire::dns::Record::parse;wire::dns::RecordData::parse;dns::eq_names;dns::copy_name bounds=query_name_<1>x<1>y_with_symbolic_label_bytes,_type_A_or_AAAA,_txid/port/timers_symbolic;_response_=_byte_template_with_symbolic_id/flags/QDCOUNT/ANCOUNT/NSCOUNT/ARCOUNT,_question_<1>x<1>y_with_symbolic_label_bytes_and_TYPE,_concrete_record_layout_per_arm_with_symbolic_TTL/RDATA;_source_any_IPv4_or_2001:db8::x,_ports_any;_A_record_owned_by_0xc00c_then_A_record_with_inline_owner_<1>x<1>y<0>
     #[kani::proof]
     pub(crate) fn dns_process_two_other_name() {
         let o = process_form(Form { o: [Owner::Ptr(QN_OFF), Owner::Inline], ..F_TWO });
         kani::cover!(o.completed && o.naddr == 1 && o.other_name && o.an == 2, "second record for another name ignored");
     }
 
-    // @harness props=C19,C03 cfg=KN tier=q to=900 mem=6 unwind=7 opts=nomem covers=1 funcs=dns::Socket::accepts;dns::Socket::process;dns::Socket::start_query;wire::dns::Packet::parse_name;wire::dns::Question::parse;wire::dns::Record::parse;wire::dns::RecordData::parse;dns::eq_names;dns::copy_name bounds=query_name_<1>x<1>y_with_symbolic_label_bytes,_type_A_or_AAAA,_txid/port/timers_symbolic;_response_=_byte_template_with_symbolic_id/flags/QDCOUNT/ANCOUNT/NSCOUNT/ARCOUNT,_question_<1>x<1>y_with_symbolic_label_bytes_and_TYPE,_concrete_record_layout_per_arm_with_symbolic_TTL/RDATA;_source_any_IPv4_or_2001:db8::x,_ports_any;_NS_record_then_A_record,_both_owned_by_0xc00c
+    // @harness props=C19,C03 cfg=KN tier=q to=900 mem=8 unwind=7 opts=nomem covers=1 funcs=dns::Socket::accepts;dns::Socket::process;dns::Socket::start_query;wire::dns::Packet::parse_name;wire::dns::Question::parse;wire::dns::Record::parse;wire::dns::RecordData::parse;dns::eq_names;dns::copy_name bounds=query_name_<1>x<1>y_with_symbolic_label_bytes,_type_A_or_AAAA,_txid/port/timers_symbolic;_response_=_byte_template_with_symbolic_id/flags/QDCOUNT/ANCOUNT/NSCOUNT/ARCOUNT,_question_<1>x<1>y_with_symbolic_label_bytes_and_TYPE,_concrete_record_layout_per_arm_with_symbolic_TTL/RDATA;_source_any_IPv4_or_2001:db8::x,_ports_any;_NS_record_then_A_record,_both_owned_by_0xc00c
     #[kani::proof]
     pub(crate) fn dns_process_ns_then_a() {
         let o = process_form(Form { rd: [Rd::Other, Rd::A], ..F_TWO });
@@ -801,7 +812,7 @@ mod v_socket_dns {
         kani::cover!(sel == 1 && o.completed && o.naddr == 2, "query completed with two IPv6 addresses");
     }
 
-    // @harness props=C19,C03,C07 cfg=KN tier=q to=900 mem=6 unwind=7 opts=nomem covers=2 funcs=dns::Socket::accepts;dns::Socket::process;dns::Socket::start_query;wire::dns::Packet::parse_name;wire::dns::Question::parse;wire::dns::Record::parse;wire::dns::RecordData::parse;dns::eq_names;dns::copy_name bounds=query_name_<1>x<1>y_with_symbolic_label_bytes,_type_A_or_AAAA,_txid/port/timers_symbolic;_response_=_byte_template_with_symbolic_id/flags/QDCOUNT/ANCOUNT/NSCOUNT/ARCOUNT,_question_<1>x<1>y_with_symbolic_label_bytes_and_TYPE,_concrete_record_layout_per_arm_with_symbolic_TTL/RDATA;_source_any_IPv4_or_2001:db8::x,_ports_any;_arms:_dns_process_ptrq_a's_template_with_question_CLASS_2_/_record_CLASS_2
+    // @harness props=C19,C03,C07 cfg=KN tier=q to=900 mem=8 unwind=7 opts=nomem covers=2 funcs=dns::Socket::accepts;dns::Socket::process;dns::Socket::start_query;wire::dns::Packet::parse_name;wire::dns::Question::parse;wire::dns::Record::parse;wire::dns::RecordData::parse;dns::eq_names;dns::copy_name bounds=query_name_<1>x<1>y_with_symbolic_label_bytes,_type_A_or_AAAA,_txid/port/timers_symbolic;_response_=_byte_template_with_symbolic_id/flags/QDCOUNT/ANCOUNT/NSCOUNT/ARCOUNT,_question_<1>x<1>y_with_symbolic_label_bytes_and_TYPE,_concrete_record_layout_per_arm_with_symbolic_TTL/RDATA;_source_any_IPv4_or_2001:db8::x,_ports_any;_arms:_dns_process_ptrq_a's_template_with_question_CLASS_2_/_record_CLASS_2
     #[kani::proof]
     pub(crate) fn dns_process_bad_class() {
         let (sel, o) = one_of!(Form { qclass: 2, ..F_ONE }, Form { class: [2, 1], ..F_ONE });
@@ -810,7 +821,7 @@ mod v_socket_dns {
         kani::cover!(sel == 1 && o.acc && o.id_ok && o.port_ok && o.question_ok && o.qr && o.an == 1 && !o.failed, "record of another class: response dropped");
     }
 
-    // @harness props=C19,C03,C07 cfg=KN tier=q to=900 mem=6 unwind=7 opts=nomem covers=2 funcs=dns::Socket::accepts;dns::Socket::process;dns::Socket::start_query;wire::dns::Packet::parse_name;wire::dns::Question::parse;wire::dns::Record::parse;wire::dns::RecordData::parse;dns::eq_names;dns::copy_name bounds=query_name_<1>x<1>y_with_symbolic_label_bytes,_type_A_or_AAAA,_txid/port/timers_symbolic;_response_=_byte_template_with_symbolic_id/flags/QDCOUNT/ANCOUNT/NSCOUNT/ARCOUNT,_question_<1>x<1>y_with_symbolic_label_bytes_and_TYPE,_concrete_record_layout_per_arm_with_symbolic_TTL/RDATA;_source_any_IPv4_or_2001:db8::x,_ports_any;_arms:_dns_process_ptrq_a's_template_with_RDLENGTH_3_/_RDLENGTH_5_for_the_A_record
+    // @harness props=C19,C03,C07 cfg=KN tier=q to=900 mem=8 unwind=7 opts=nomem covers=2 funcs=dns::Socket::accepts;dns::Socket::process;dns::Socket::start_query;wire::dns::Packet::parse_name;wire::dns::Question::parse;wire::dns::Record::parse;wire::dns::RecordData::parse;dns::eq_names;dns::copy_name bounds=query_name_<1>x<1>y_with_symbolic_label_bytes,_type_A_or_AAAA,_txid/port/timers_symbolic;_response_=_byte_template_with_symbolic_id/flags/QDCOUNT/ANCOUNT/NSCOUNT/ARCOUNT,_question_<1>x<1>y_with_symbolic_label_bytes_and_TYPE,_concrete_record_layout_per_arm_with_symbolic_TTL/RDATA;_source_any_IPv4_or_2001:db8::x,_ports_any;_arms:_dns_process_ptrq_a's_template_with_RDLENGTH_3_/_RDLENGTH_5_for_the_A_record
     #[kani::proof]
     pub(crate) fn dns_process_bad_rdlength() {
         let (sel, o) = one_of!(Form { rdlen_delta: [-1, 0], ..F_ONE }, Form { rdlen_delta: [1, 0], ..F_ONE });
@@ -819,7 +830,7 @@ mod v_socket_dns {
         kani::cover!(sel == 1 && o.acc && o.id_ok && o.port_ok && o.question_ok && o.qr && o.an == 1 && !o.failed, "RDLENGTH beyond the message: response dropped");
     }
 
-    // @harness props=C19,C03,C07 cfg=KN tier=q to=900 mem=6 unwind=7 opts=nomem covers=4 funcs=dns::Socket::accepts;dns::Socket::process;dns::Socket::start_query;wire::dns::Packet::parse_name;wire::dns::Question::parse;wire::dns::Record::parse;wire::dns::RecordData::parse;dns::eq_names;dns::copy_name bounds=query_name_<1>x<1>y_with_symbolic_label_bytes,_type_A_or_AAAA,_txid/port/timers_symbolic;_response_=_byte_template_with_symbolic_id/flags/QDCOUNT/ANCOUNT/NSCOUNT/ARCOUNT,_question_<1>x<1>y_with_symbolic_label_bytes_and_TYPE,_concrete_record_layout_per_arm_with_symbolic_TTL/RDATA;_source_any_IPv4_or_2001:db8::x,_ports_any;_arms:_dns_process_ptrq_a's_template_cut_to_11_/_12_/_20_/_21_/_32_/_36_of_its_37_bytes_(measured_through_the_runner:_327_s_on_the_loaded_machine)
+    // @harness props=C19,C03,C07 cfg=KN tier=q to=900 mem=8 unwind=7 opts=nomem covers=4 funcs=dns::Socket::accepts;dns::Socket::process;dns::Socket::start_query;wire::dns::Packet::parse_name;wire::dns::Question::parse;wire::dns::Record::parse;wire::dns::RecordData::parse;dns::eq_names;dns::copy_name bounds=query_name_<1>x<1>y_with_symbolic_label_bytes,_type_A_or_AAAA,_txid/port/timers_symbolic;_response_=_byte_template_with_symbolic_id/flags/QDCOUNT/ANCOUNT/NSCOUNT/ARCOUNT,_question_<1>x<1>y_with_symbolic_label_bytes_and_TYPE,_concrete_record_layout_per_arm_with_symbolic_TTL/RDATA;_source_any_IPv4_or_2001:db8::x,_ports_any;_arms:_dns_process_ptrq_a's_template_cut_to_11_/_12_/_20_/_21_/_32_/_36_of_its_37_bytes_(measured_through_the_runner:_327_s_on_the_loaded_machine)
     #[kani::proof]
     pub(crate) fn dns_process_truncated() {
         let (sel, o) = one_of!(
@@ -837,7 +848,7 @@ mod v_socket_dns {
         kani::cover!(sel == 5 && o.acc && o.id_ok && o.port_ok && o.question_ok && o.qr && o.an == 1 && !o.failed, "truncated RDATA: response dropped");
     }
 
-    // @harness props=C19 kind=mustfail cfg=KN tier=q to=900 mem=6 unwind=7 opts=nomem
+    // @harness props=C19 kind=mustfail cfg=KN tier=q to=900 mem=8 unwind=7 opts=nomem
     #[kani::proof]
     pub(crate) fn dns_process_must_fail() {
         let o = process_form(F_ONE);
@@ -956,8 +967,8 @@ mod v_socket_dns {
         kani::cover!(!q_ok && !r_ok && len == N, "16 bytes rejected by both parsers");
     }
 
-    // (8 bytes: out of memory at 8 GB after 350 s)
-    // @harness props=C19,C07,C03 cfg=KN tier=q to=900 mem=8 unwind=8 opts=term covers=3 funcs=dns::copy_name;dns::eq_names;wire::dns::Packet::parse_name bounds=message_of_0..=6_fully_symbolic_bytes;_name_at_any_offset_copied_into_a_64-byte_name_buffer_and_compared_with_itself;_unwind_8_=_N+2
+    // (8 bytes, and 6 bytes followed by eq_names(copy, original): out of memory at 8 GB after 350 s)
+    // @harness props=C19,C07,C03 cfg=KN tier=q to=900 mem=8 unwind=8 opts=term covers=3 funcs=dns::copy_name;wire::dns::Packet::parse_name bounds=message_of_0..=6_fully_symbolic_bytes;_name_at_any_offset_copied_into_a_64-byte_name_buffer;_unwind_8_=_N+2
     #[kani::proof]
     pub(crate) fn dns_name_copy_free() {
         const N: usize = 6;
@@ -992,8 +1003,6 @@ mod v_socket_dns {
                 i += 1;
             }
             assert!(fin, "prop:c19_copied_name_is_terminated");
-            let e = eq_names(p.parse_name(&dest), p.parse_name(&buf[start..]));
-            assert!(matches!(e, Ok(true)), "prop:c19_copied_name_spells_the_same_name");
         }
         kani::cover!(start < len && r.is_ok() && nlabels >= 2 && bytes[start] >= 0xc0, "compressed two-label name copied");
         kani::cover!(r.is_err() && len >= 2, "malformed name rejected");
@@ -1030,17 +1039,36 @@ mod v_socket_dns {
         let eff_n = if mdns { 2 } else { ns };
         let fresh: bool = kani::any();
         let idx = any_lt(2);
-        let delay = (SEC as usize + any_le(9 * SEC as usize)) as u64;
+        // delays dispatch can produce: 1 s doubled up to the 10 s cap
+        let dsel: u8 = kani::any();
+        let (delay, dprev): (u64, i64) = match dsel {
+            0 => (SEC as u64, 0),
+            1 => (2 * SEC as u64, SEC),
+            2 => (4 * SEC as u64, 2 * SEC),
+            3 => (8 * SEC as u64, 4 * SEC),
+            4 => (10 * SEC as u64, 8 * SEC),
+            _ => (10 * SEC as u64, 10 * SEC),
+        };
         let ra = any_us_in(0, now + 10 * SEC);
         let tav = any_us_in(0, now + 10 * SEC);
         let ta = if fresh { None } else { Some(tav) };
         if fresh {
             // as start_query leaves it
-            kani::assume(idx == 0 && delay == SEC as u64 && ra == 0);
+            kani::assume(idx == 0 && dsel == 0 && ra == 0);
         } else {
-            // a dispatch that left the query pending found idx < servers; retransmit_at = an earlier now + an earlier delay
-            kani::assume(idx < eff_n);
-            kani::assume(ra <= now + delay as i64);
+            // left pending by an earlier dispatch: server_idx < servers; the per-server timeout was armed 10 s
+            // after some instant >= 0
+            kani::assume(idx < eff_n && tav >= 10 * SEC);
+            if dsel == 0 {
+                // fail-over (or first dispatch) whose transmission the device refused: retransmit_at still zero,
+                // timeout armed at that instant + 10 s
+                kani::assume(ra == 0);
+            } else {
+                // last transmission at t_e = retransmit_at - previous delay: t_e <= now, the query had not timed
+                // out at t_e (timeout_at >= t_e) and the timeout was armed at most 10 s before t_e... after
+                let t_e = ra - dprev;
+                kani::assume(t_e >= 0 && t_e <= now && tav >= t_e && tav <= t_e + 10 * SEC);
+            }
         }
         let pq = pending_of(s, 0);
         pq.name = name_of(qn);
